@@ -93,6 +93,7 @@ def run(ctx):
     siblings_agree(ctx, "T4-siblings-agree", M + "clear_later_rows_in_place", M + "clear_later_cols_in_place", "row step ~ column step", compare_fields=True)
     divisor_chain(ctx, g, ai)
     elimination_ranges(ctx, g)
+    last_pass_decides(ctx, g)
     ctx.clauses.append("gcdx is extended Euclid: r*A + s*B = +-gcd, t*A + u*B = 0, r*u - s*t = +-1 for every input (loop invariant decided on sampled states)")
     gx = ctx.body(M + "gcdx")
     ctx.scan([gx])
@@ -182,6 +183,45 @@ def elimination_ranges(ctx, g):
                        "the loop over the %s of the matrix ends at %s instead of %s: part of the trailing block is never looked at (a pivot there is missed, torsion is reported as a free factor)" % (
                            key[1], show(hi, 1)[:50], "mat.len()" if is_row_index else "mat[0].len()"), b.span_of(bi))
     ctx.floor("row/column loops of the elimination routines", n, 8)
+
+
+def last_pass_decides(ctx, g):
+    """diagonalize_in_place alternates a row pass and a column pass on the pivot until a pass needed no gcd step; the pass whose count ends
+    the loop must be the LAST one applied to the matrix - a later pass can re-fill the line the tested pass had cleared, and the loop
+    would end on a matrix whose pivot row/column is not clear (the diagonal is then not the Smith form)"""
+    ctx.clauses.append("the elimination loop ends on the count of the last pass applied (no later pass touches the matrix before the exit) (T3)")
+    b = ctx.body(M + "diagonalize_in_place")
+    mat = ("param", 1, b.debug.get(1, ""))
+    passes = {bi: t for bi, t in b.calls() if t["callee"].get("def", "").startswith(M + "clear_later_")}
+    ctx.floor("elimination passes in diagonalize_in_place", len(passes), 2)
+    n = 0
+    for h, blocks in natural_loops(b):
+        if not any(pb in blocks for pb in passes):
+            continue
+        inner = [hh for hh, bl in natural_loops(b) if hh != h and hh in blocks and any(pb in bl for pb in passes)]
+        if inner:
+            continue        # the outer (pivot) loop
+        for (a, s_), atoms in loop_exit_atoms(b, h, blocks, g):
+            tested = None
+            for at in atoms:
+                if at[0] == "rel" and at[1] == "Eq" and at[3] == ("int", 0) and at[2][0] == "call" and "::clear_later_" in at[2][1]:
+                    tested = at[2]
+            if tested is None:
+                ctx.ob("T3-last-pass-decides", b.name, "exit", "violation", "the elimination loop is left on %s, not on `a pass needed no gcd step`" % [show_atom(x)[:50] for x in atoms], b.span_of(a))
+                continue
+            n += 1
+            # the block of the tested call: the pass whose callee and args match
+            tb = [pb for pb, t in passes.items() if t["callee"]["def"] == tested[1]]
+            later = []
+            for pb in tb[:1]:
+                region = b.fwd(pb) & b.bwd(a) | {a}
+                later = [qb for qb in passes if qb != pb and qb in region and b.dominates(pb, qb)]
+            ok = bool(tb) and not later
+            ctx.ob("T3-last-pass-decides", b.name, "exit<-count of the last pass == 0", "ok" if ok else "violation",
+                   "the loop ends when %s, the last pass before the exit, reports no gcd step" % tested[1].split("::")[-1] if ok else
+                   "the loop ends on the count of %s although %s runs after it: that pass can re-fill the line just cleared, the pivot's row/column is not clear at the exit" % (
+                       tested[1].split("::")[-1], [passes[q]["callee"]["def"].split("::")[-1] for q in later]), b.span_of(a))
+    ctx.floor("count-controlled exits of the elimination loop", n, 1)
 
 
 def divisor_chain(ctx, g, ai):
